@@ -66,8 +66,13 @@ def save_paths(ctx, cls):
 
 
 def restore_paths(ctx, cls):
-    """attr -> field path read from the parameter, from `self.a = param.x.y` statements."""
+    """attr -> field path read from the parameter, from `self.a = param.x.y` statements
+    (following super()._restore_state_from_checkpoint(param))."""
     owner, fn = ctx.ct.require(cls, "_restore_state_from_checkpoint")
+    return _restore_paths_of(ctx, cls, owner, fn)
+
+
+def _restore_paths_of(ctx, cls, owner, fn):
     params = [a.arg for a in fn.args.args if a.arg != "self"]
     if len(params) != 1:
         raise AnalysisError(f"{cls.name}._restore_state_from_checkpoint: expected one parameter")
@@ -79,6 +84,16 @@ def restore_paths(ctx, cls):
             continue
         if isinstance(s, ast.Expr) and isinstance(s.value, ast.Call) and ast.unparse(s.value.func).startswith("logger."):
             continue
+        # super()._restore_state_from_checkpoint(<param>): inherit the parent's restores
+        if isinstance(s, ast.Expr) and isinstance(s.value, ast.Call) and ast.unparse(s.value.func) == "super()._restore_state_from_checkpoint" \
+                and len(s.value.args) == 1 and isinstance(s.value.args[0], ast.Name) and s.value.args[0].id == p:
+            up = ctx.ct.lookup(cls, "_restore_state_from_checkpoint", after=owner)
+            if up is not None:
+                _o, _f, inherited, _other = _restore_paths_of(ctx, cls, up[0], up[1])
+                for k_, v_ in inherited.items():
+                    out.setdefault(k_, v_)
+                other.extend(_other)
+                continue
         if isinstance(s, ast.Assign) and len(s.targets) == 1 and is_self_attr(s.targets[0]):
             path = []
             v = s.value
